@@ -4,17 +4,18 @@ mod verif_kani_updates {
     use super::*;
 
     // C08 index-value (partial) update forms: "out-of-range index ... return an error" (never a panic), in-range entries
-    // are written, nothing else is.  bounded: vector of length 3, two (index, value) pairs, arbitrary indices;
-    // scalings are 1.0 and values are compared for the untouched entries only (no float product is re-computed)
+    // are written with the equilibration re-applied (value * scale of that entry [* c]), nothing else is.  bounded: vector of
+    // length 3, two (index, value) pairs, arbitrary indices; scalings are distinct powers of two (products exact)
     #[kani::proof]
     #[kani::unwind(5)]
     fn partial_vector_update_index_checks() {
         let mut v = vec![10.0f64, 20.0, 30.0];
-        let vscale = vec![1.0f64, 1.0, 1.0];
+        let vscale = vec![2.0f64, 4.0, 8.0];
         let i0: usize = kani::any(); let i1: usize = kani::any();
         let idx = vec![i0, i1];
         let val = vec![1.5f64, 2.5];
-        let c: Option<f64> = if kani::any() { Some(1.0) } else { None };
+        let c: Option<f64> = if kani::any() { Some(0.5) } else { None };
+        let cs = match c { Some(x) => x, None => 1.0 };
         let z = zip(idx.iter(), val.iter());
         let r = z.update_vector(&mut v, &vscale, c);
         kani::cover!(r.is_ok());
@@ -27,21 +28,24 @@ mod verif_kani_updates {
             if k != i0 && k != i1 { assert!(v[k] == [10.0, 20.0, 30.0][k]); }
             k += 1;
         }
-        if r.is_ok() { assert!(v[i1] == 2.5 && (i0 == i1 || v[i0] == 1.5)); }
+        if r.is_ok() { assert!(v[i1] == 2.5 * vscale[i1] * cs && (i0 == i1 || v[i0] == 1.5 * vscale[i0] * cs)); }
         std::mem::forget(v); std::mem::forget(vscale); std::mem::forget(idx); std::mem::forget(val);
     }
 
-    // same for the matrix form: 2x2 matrix with 3 stored entries
+    // same for the matrix form: 2x2 matrix with 3 stored entries at (0,0), (1,0), (0,1); entry (row, col) is written as
+    // lscale[row] * rscale[col] [* c] * value (row and column scalings distinct powers of two, so every entry has its own factor)
     #[kani::proof]
     #[kani::unwind(6)]
     fn partial_matrix_update_index_checks() {
         let mut m = CscMatrix::new(2, 2, vec![0, 2, 3], vec![0, 1, 0], vec![10.0f64, 20.0, 30.0]);
-        let l = vec![1.0f64, 1.0];
-        let r_ = vec![1.0f64, 1.0];
+        let l = vec![2.0f64, 4.0];
+        let r_ = vec![8.0f64, 32.0];
         let i0: usize = kani::any(); let i1: usize = kani::any();
         let idx = vec![i0, i1];
         let val = vec![1.5f64, 2.5];
-        let c: Option<f64> = if kani::any() { Some(1.0) } else { None };
+        let c: Option<f64> = if kani::any() { Some(0.5) } else { None };
+        let cs = match c { Some(x) => x, None => 1.0 };
+        let fac = [16.0f64, 32.0, 64.0];      // lscale[row] * rscale[col] of the three stored entries
         let z = zip(idx.iter(), val.iter());
         let r = z.update_matrix(&mut m, &l, &r_, c);
         assert!(r.is_err() == (i0 >= 3 || i1 >= 3));
@@ -51,7 +55,7 @@ mod verif_kani_updates {
             if k != i0 && k != i1 { assert!(m.nzval[k] == [10.0, 20.0, 30.0][k]); }
             k += 1;
         }
-        if r.is_ok() { assert!(m.nzval[i1] == 2.5 && (i0 == i1 || m.nzval[i0] == 1.5)); }
+        if r.is_ok() { assert!(m.nzval[i1] == 2.5 * fac[i1] * cs && (i0 == i1 || m.nzval[i0] == 1.5 * fac[i0] * cs)); }
         std::mem::forget(m); std::mem::forget(l); std::mem::forget(r_); std::mem::forget(idx); std::mem::forget(val);
     }
 }
